@@ -762,7 +762,7 @@ func init() {
 					}
 				}},
 				{Name: "canonical", N: 1, Note: "url x version x fragment in all presence combinations; New -> IdentityFromReference -> String", Run: func(i int, r *core.Rec) {
-					urls := []string{"http://example.org/fhir/ValueSet/x", "https://h:8080/a/b/StructureDefinition/s.1", "urn:oid:1.2.3", "http://h/Questionnaire/q-1"}
+					urls := []string{"http://example.org/fhir/ValueSet/x", "https://h:8080/a/b/StructureDefinition/s.1", "urn:oid:1.2.3", "http://h/Questionnaire/q-1", "http://example.org/fhir/ValueSet/body%20site"}
 					vers := []string{"", "1", "1.0.0", "v_1-a", "2020-01"}
 					frags := []string{"", "f", "a.b-c_d", strings.Repeat("f", 64)}
 					for _, u := range urls {
@@ -799,6 +799,16 @@ func init() {
 								}
 								if err != nil || ci.Url != u || ci.Version != v || ci.Fragment != f || ci.String() != want {
 									r.Fail("canonical|"+cls+"|split-or-reassembly-differs", core.W{"canonical": want, "got": fmt.Sprintf("%+v err=%v", ci, err)})
+								}
+								// the parts have one place each in a canonical (url|version#fragment), in whatever order they are handed over
+								if len(opts) == 2 {
+									var c2 *dtpb.Canonical
+									if pi := core.Try(func() { c2 = canonical.New(u, opts[1], opts[0]) }); pi != nil {
+										r.Fail("canonical|"+cls+"|options-reversed|"+pi.Key(), core.W{"canonical": want})
+									} else if c2.GetValue() != want {
+										r.Fail("canonical|"+cls+"|options-reversed|New-formats-differently", core.W{"got": c2.GetValue(), "want": want})
+									}
+									r.Eval()
 								}
 							}
 						}
